@@ -252,6 +252,11 @@ func (p *Proxy) handleRawMessage(rawMessage *RawMessage) (*Message, error) {
 		if strings.HasPrefix(host, "[") {
 			host = host[1 : len(host)-1]
 		}
+		// register the connection under the address the response will be looked
+		// up with: sendMessage resolves the host before it asks for the transport
+		if ip, resolveErr := p.resolver.GetIp(host); resolveErr == nil {
+			host = ip
+		}
 		zap.L().Info("receive a message from tcp", zap.String("host", host), zap.Int("port", port))
 		if err == nil {
 			transId, err := msg.GetClientTransaction()
